@@ -187,7 +187,9 @@ class BucketMaxStrategy(DrainStrategy):
 class _MetricCache(defaultdict):
   """A Singleton dictionary of metric names and lists of their datapoints"""
   def __init__(self, strategy=None):
-    self.lock = threading.Lock()
+    # re-entrant: handlers of the space-available event may store into the cache
+    # (re-injected datapoints) while _check_available_space() holds the lock
+    self.lock = threading.RLock()
     self.size = 0
     self.new_metrics = deque()
     self.strategy = None
@@ -221,9 +223,14 @@ class _MetricCache(defaultdict):
       return self.size >= settings.MAX_CACHE_SIZE
 
   def _check_available_space(self):
-    if state.cacheTooFull and self.size < settings.CACHE_SIZE_LOW_WATERMARK:
-      log.msg("MetricCache below watermark: self.size=%d" % self.size)
-      events.cacheSpaceAvailable()
+    # Under the lock, like the fullness check in store(): the handlers of
+    # cacheFull (fired by a storing thread) and of cacheSpaceAvailable (fired by
+    # the draining thread) must not interleave, or the receivers can end up
+    # paused with cacheTooFull cleared and nothing left to resume them.
+    with self.lock:
+      if state.cacheTooFull and self.size < settings.CACHE_SIZE_LOW_WATERMARK:
+        log.msg("MetricCache below watermark: self.size=%d" % self.size)
+        events.cacheSpaceAvailable()
 
   def drain_metric(self):
     """Returns a metric and it's datapoints in order determined by the
